@@ -2,6 +2,8 @@ package main
 
 import (
 	"fmt"
+	gobuild "go/build"
+	"path/filepath"
 
 	"github.com/cockroachdb/errors"
 	"github.com/cockroachdb/redact"
@@ -20,4 +22,56 @@ func fmtSX(e error) SX {
 		L(Sym("rvred"), Str(string(rv.Redact()))),
 		L(Sym("rpvred"), Str(string(rpv.Redact()))),
 	)
+}
+
+// trimPathsList replicates withstack's (unexported) trimPaths: the source directories of
+// the Go build context, with a trailing separator.
+func trimPathsList() []string {
+	var out []string
+	for _, prefix := range gobuild.Default.SrcDirs() {
+		if prefix[len(prefix)-1] != filepath.Separator {
+			prefix += string(filepath.Separator)
+		}
+		out = append(out, prefix)
+	}
+	return out
+}
+
+// reportSX: BuildSentryReport in the shape of ErrModel.pReport.
+func reportSX(e error) SX {
+	ev, extras := errors.BuildSentryReport(e)
+	if ev == nil {
+		return L(Sym("noreport"))
+	}
+	var excs []SX
+	for _, x := range ev.Exception {
+		frames := L(Sym("nostack"))
+		if x.Stacktrace != nil {
+			var fs []SX
+			for _, f := range x.Stacktrace.Frames {
+				fs = append(fs, L(Str(f.Function), Str(f.Module), Str(f.Filename), Str(f.AbsPath), Str(fmt.Sprint(f.Lineno))))
+			}
+			frames = L(fs...)
+		}
+		excs = append(excs, L(Str(x.Module), Str(x.Type), Str(x.Value), frames))
+	}
+	types, _ := extras["error types"].(string)
+	return L(Sym("report"),
+		L(Sym("message"), Str(ev.Message)),
+		L(Sym("exceptions"), L(excs...)),
+		L(Sym("types"), Str(types)))
+}
+
+// the directives of the verbs stream
+var verbSpecs = []string{"%v", "%s", "%+v", "%q", "%x", "%X", "%#v", "%d", "%10s", "%-12v", "%.3s", "%.0v", "%8.2q", "% x", "%#x",
+	"%#q", "%012s", "%40.30v", "%t", "%-5d", "%+10v", "%3v", "%0v", "% v", "%#s"}
+
+// verbsSX: for every directive the real plain rendering (through Formattable) and the real
+// redactable rendering.
+func verbsSX(e error) SX {
+	out := make([]SX, len(verbSpecs))
+	for i, f := range verbSpecs {
+		out[i] = L(Str(f), Str(fmt.Sprintf(f, errors.Formattable(e))), Str(string(redact.Sprintf(f, e))))
+	}
+	return L(out...)
 }
